@@ -18,6 +18,7 @@ import (
 	"sort"
 	"strings"
 
+	"google.golang.org/protobuf/types/known/structpb"
 	corev1 "k8s.io/api/core/v1"
 	metav1 "k8s.io/apimachinery/pkg/apis/meta/v1"
 	"k8s.io/apimachinery/pkg/apis/meta/v1/unstructured"
@@ -25,11 +26,10 @@ import (
 	"k8s.io/apimachinery/pkg/runtime/schema"
 	"k8s.io/apimachinery/pkg/types"
 	"k8s.io/utils/ptr"
-	"google.golang.org/protobuf/types/known/structpb"
 	"sigs.k8s.io/controller-runtime/pkg/client"
 	"sigs.k8s.io/controller-runtime/pkg/reconcile"
 
-
+	ucomposed "github.com/crossplane/crossplane-runtime/pkg/resource/unstructured/composed"
 	ucomposite "github.com/crossplane/crossplane-runtime/pkg/resource/unstructured/composite"
 
 	fnv1 "github.com/crossplane/crossplane/apis/apiextensions/fn/proto/v1"
@@ -57,37 +57,37 @@ var (
 )
 
 type world struct {
-	s        *simapi.Server
-	c, uc    *simapi.Client
-	xfnc     *simapi.Client // the PackagedFunctionRunner's reader (not intercepted, not traced)
-	forge    bool           // the desired resources' bodies carry a stale composition-resource-name annotation
-	rec      reconcile.Reconciler
-	tw       *trace.Writer
-	scenID   string
-	mode     string
-	names    []string
-	want     []string
-	fixed    string // the desired name that asks for metadata.name "fixed" ("" if none)
-	ids      map[string]string // real object name -> abstract id
-	rev      map[string]string // abstract id -> real name
-	nextID   int
-	xrUID    types.UID
+	s      *simapi.Server
+	c, uc  *simapi.Client
+	xfnc   *simapi.Client // the PackagedFunctionRunner's reader (not intercepted, not traced)
+	forge  bool           // the desired resources' bodies carry a stale composition-resource-name annotation
+	rec    reconcile.Reconciler
+	tw     *trace.Writer
+	scenID string
+	mode   string
+	names  []string
+	want   []string
+	fixed  string            // the desired name that asks for metadata.name "fixed" ("" if none)
+	ids    map[string]string // real object name -> abstract id
+	rev    map[string]string // abstract id -> real name
+	nextID int
+	xrUID  types.UID
 
-	al        *replay.Aligner
-	recNo     int
-	pfail     bool     // an observation or pipeline failure was delivered in this reconcile
-	failKind  string   // how the pipeline fails in this reconcile ("" = not)
-	inCompose bool
-	gcd       []string
-	vanished  []string // resources the environment removed in the middle of this reconcile
-	start     map[string]any
-	quiet     bool
-	prevOK    bool   // previous reconcile: ok, fault free, no env step since it started
-	prevDig   string
-	fnCalls   int
-	reqRound  int
-	wantRec   []string // the final desired names of this reconcile as delivered to the composer
-	composed   bool    // Compose returned in this reconcile
+	al         *replay.Aligner
+	recNo      int
+	pfail      bool   // an observation or pipeline failure was delivered in this reconcile
+	failKind   string // how the pipeline fails in this reconcile ("" = not)
+	inCompose  bool
+	gcd        []string
+	vanished   []string // resources the environment removed in the middle of this reconcile
+	start      map[string]any
+	quiet      bool
+	prevOK     bool // previous reconcile: ok, fault free, no env step since it started
+	prevDig    string
+	fnCalls    int
+	reqRound   int
+	wantRec    []string // the final desired names of this reconcile as delivered to the composer
+	composed   bool     // Compose returned in this reconcile
 	composeErr error
 	fnOverride func(context.Context, string, *fnv1.RunFunctionRequest) (*fnv1.RunFunctionResponse, error)
 	rfail      map[string]bool // PT: templates that cannot be rendered right now
@@ -172,7 +172,9 @@ func (w *world) post() map[string]any {
 			objs = append(objs, map[string]any{"id": w.idOf(o.GetName()), "ctrl": ctrl, "rname": rn, "st": st, "made": made})
 		}
 	})
-	sort.Slice(objs, func(i, j int) bool { return objs[i].(map[string]any)["id"].(string) < objs[j].(map[string]any)["id"].(string) })
+	sort.Slice(objs, func(i, j int) bool {
+		return objs[i].(map[string]any)["id"].(string) < objs[j].(map[string]any)["id"].(string)
+	})
 	return map[string]any{"refs": refs, "objs": objs, "digest": fmt.Sprintf("%x", h.Sum(nil)[:8]), "xrReady": xrReady, "xrSynced": xrSynced}
 }
 
@@ -393,7 +395,9 @@ func (w *world) env(e replay.Entry) {
 		}
 	case "markdeleted":
 		k := cdKey(w.rev[e.O])
-		w.s.Mutate(k, func(u *unstructured.Unstructured) { u.SetFinalizers(append(u.GetFinalizers(), "provider.example.org/external")) })
+		w.s.Mutate(k, func(u *unstructured.Unstructured) {
+			u.SetFinalizers(append(u.GetFinalizers(), "provider.example.org/external"))
+		})
 		w.s.MarkDeleted(k)
 	case "finalize":
 		w.s.Mutate(cdKey(w.rev[e.O]), func(u *unstructured.Unstructured) { u.SetFinalizers(nil) })
@@ -794,6 +798,13 @@ func main() {
 			fmt.Fprintln(os.Stderr, "bad scenario:", err)
 			os.Exit(2)
 		}
+		if t := strings.TrimSpace(string(sc.Hist)); strings.HasPrefix(t, "{") {
+			// an input vector of spec/MCRefOrder.tla, not a behaviour
+			refsVector(tw, sc.ID, sc.Hist)
+			sum.Scenarios++
+			sum.Runs++
+			continue
+		}
 		hist, err := replay.Parse(sc.Hist)
 		if err != nil || len(hist) == 0 || hist[0].T != "init" {
 			fmt.Fprintln(os.Stderr, "bad scenario history:", err)
@@ -860,4 +871,42 @@ func main() {
 		fmt.Fprintln(os.Stderr, err)
 		os.Exit(2)
 	}
+}
+
+// refsVector: the real composite.UpdateResourceRefs on one set of desired resources (spec/MCRefOrder.tla), 24 times - it
+// ranges over a Go map, so the order in which it meets the resources differs from call to call; what it persists must not.
+func refsVector(tw *trace.Writer, id string, raw json.RawMessage) {
+	var v struct {
+		Resources []struct{ APIVersion, Kind, Name string } `json:"resources"`
+	}
+	if err := json.Unmarshal(raw, &v); err != nil {
+		fmt.Fprintln(os.Stderr, "bad refs vector:", err)
+		os.Exit(2)
+	}
+	tw.Boundary()
+	w := newWorld(tw, id, map[string]any{"mode": "Pipeline", "names": []any{"a"}, "want": []any{"a"}, "foreignAt": "none", "fixedName": "a"})
+	w.emit("reset", nil)
+	in := []any{}
+	runs := []any{}
+	for k := 0; k < 24; k++ {
+		desired := composite.ComposedResourceStates{}
+		for i, r := range v.Resources {
+			cd := ucomposed.New()
+			cd.SetAPIVersion(r.APIVersion)
+			cd.SetKind(r.Kind)
+			cd.SetName(r.Name)
+			desired[composite.ResourceName(fmt.Sprintf("r%d", i))] = composite.ComposedResourceState{Resource: cd}
+			if k == 0 {
+				in = append(in, r.APIVersion+"|"+r.Kind+"|"+r.Name)
+			}
+		}
+		xr := ucomposite.New()
+		composite.UpdateResourceRefs(xr, desired)
+		got := []any{}
+		for _, ref := range xr.GetResourceReferences() {
+			got = append(got, ref.APIVersion+"|"+ref.Kind+"|"+ref.Name)
+		}
+		runs = append(runs, got)
+	}
+	w.emit("refsvec", map[string]any{"input": in, "runs": runs})
 }
